@@ -391,6 +391,13 @@ type commonData struct {
 //	return nil
 //}
 
+// entitledToVote tells whether a look-back validator may vote in the committee of the given kind:
+// it must exist, be online and be of that kind. This mirrors what the message handler and the
+// sortition manager require of live votes.
+func entitledToVote(validator *state.Validator, kind params.ValidatorKind) bool {
+	return validator != nil && validator.Status == params.ValidatorOnline && validator.Kind() == kind
+}
+
 func (s *Server) verifyVotes(cd *commonData, votes []SingleVote, asig []byte, step uint32, kind params.ValidatorKind, isPos bool) error {
 	start := time.Now()
 	var sig bls.Signature
@@ -430,6 +437,11 @@ func (s *Server) verifyVotes(cd *commonData, votes []SingleVote, asig []byte, st
 				logging.Error("RecoverSignerInfo failed, validators", "vStat", vstate)
 				return fmt.Errorf("verifyBlsVotes can't recover signer info, error: %v", err)
 			}
+			if !entitledToVote(validator, kind) {
+				// only online members of the voting kind are entitled to vote (as the live vote path enforces);
+				// anybody else's vote contributes nothing
+				continue
+			}
 			addr = crypto.PubkeyToAddress(*pubKey)
 			if staData[addr] == true {
 				continue
@@ -446,6 +458,10 @@ func (s *Server) verifyVotes(cd *commonData, votes []SingleVote, asig []byte, st
 
 			addr = crypto.PubkeyToAddress(*pubKey)
 			validator = cd.lbVld.GetValidatorByMainAddr(addr)
+			if !entitledToVote(validator, kind) {
+				// not a member of the look-back set (validator == nil), offline, or of another kind
+				continue
+			}
 		}
 		if staData[addr] == true {
 			continue
